@@ -215,6 +215,12 @@ pub fn build(
     }
 }
 
+/// The name of the vftable type generated for the type called `owner`. A raw owner (`r#type`)
+/// does not make the longer name raw: `typeVftable` is what a description can write.
+pub(crate) fn type_name(owner: &str) -> String {
+    format!("{}Vftable", owner.strip_prefix("r#").unwrap_or(owner))
+}
+
 /// Given a list of functions, create the type definition for the vftable containing them
 fn build_type(
     type_registry: &TypeRegistry,
@@ -229,7 +235,7 @@ fn build_type(
         return Ok(None);
     };
 
-    let resolvee_vtable_path = parent.join(format!("{}Vftable", name.as_str()).into());
+    let resolvee_vtable_path = parent.join(type_name(name.as_str()).into());
 
     let regions: Vec<_> = functions
         .iter()
